@@ -381,14 +381,34 @@ func (r *replica) pins() ([]map[string]string, error) {
 func (r *replica) heads() []string  { return r.store.keys(r.ns + "/h/") }
 func (r *replica) blocks() []string { return r.store.keys(r.ns + "/b/") }
 
-// submit calls LogPin / LogUnpin and classifies the result.
-func (r *replica) submit(kind, c, v string) (string, error) {
-	ctx := context.Background()
+// submit calls LogPin / LogUnpin with its OWN request context and classifies the result.
+// mode says what happens to that context, as with real callers (REST / RPC requests end as
+// soon as the call has returned):
+//   "now"   cancelled immediately after the call returns
+//   "delay" cancelled ~2ms after the call returns
+//   "dl"    carries a 300us deadline (expires while the item is still queued, or earlier)
+//   "never" (or "") never cancelled
+// Whatever returns nil is accepted and must take effect.
+func (r *replica) submit(kind, c, v, mode string) (string, error) {
+	ctx, cancel := context.WithCancel(context.Background())
+	if mode == "dl" {
+		ctx, cancel = context.WithTimeout(context.Background(), 300*time.Microsecond)
+	}
 	var err error
 	if kind == "pin" {
 		err = r.cons.LogPin(ctx, mkPin(r.names.Cid(c), v, r.names))
 	} else {
 		err = r.cons.LogUnpin(ctx, api.PinCid(r.names.Cid(c)))
+	}
+	switch mode {
+	case "now":
+		cancel()
+	case "delay":
+		time.AfterFunc(2*time.Millisecond, cancel)
+	case "dl":
+		time.AfterFunc(100*time.Millisecond, cancel)
+	default:
+		_ = cancel
 	}
 	switch {
 	case err == nil:
